@@ -29,6 +29,7 @@ func init() {
 			Replay struct {
 				Workload *crSpec `json:"workload"`
 				Issued   int     `json:"issued_before_crash"`
+				Acked    string  `json:"acked_before_crash"`
 				Image    struct {
 					Current string            `json:"current"`
 					Files   map[string]string `json:"files"`
@@ -59,7 +60,7 @@ func init() {
 		}
 		spec := w.Replay.Workload
 		bs := spec.gen()
-		db, err := leveldb.Open(st, spec.Opts.Options())
+		db, err := leveldb.Open(st, spec.options())
 		if os.Getenv("VERIF_LOG") != "" {
 			for _, op := range st.Ops() {
 				fmt.Println("op", op.String())
@@ -81,7 +82,7 @@ func init() {
 			c.Res.Violate("crash-image:read-error", err.Error(), nil)
 			return
 		}
-		oracle, msg, present := crSubsetOracle(bs, got, func(id int) bool { return id < w.Replay.Issued && bs[id].Kind != "txdiscard" }, nil)
+		oracle, msg, present := crSubsetOracle(bs, got, func(id int) bool { return id < w.Replay.Issued && bs[id].Kind != "txdiscard" }, crParseRanges(w.Replay.Acked))
 		fmt.Println("present:", crIDRanges(crSortedIDs(present)), "oracle:", oracle, msg)
 		if oracle != "" {
 			c.Res.Violate("crash-image:"+oracle, msg, nil)
@@ -142,7 +143,7 @@ func crLoadImage(files map[string]string, current string) (*stor.Stor, error) {
 // operation order of the run repeats, i.e. for settle=true workloads).
 func replayCrashPath(c *Ctx, spec *crSpec, path []crPoint) {
 	bs := spec.gen()
-	o := spec.Opts.Options()
+	o := spec.options()
 	st := stor.New()
 	db, err := leveldb.Open(st, o)
 	if err != nil {
@@ -154,7 +155,12 @@ func replayCrashPath(c *Ctx, spec *crSpec, path []crPoint) {
 	st.SetHooks(nil, func(s *stor.Stor, op stor.Op) {
 		if img == nil && op.Seq == path[0].OpSeq {
 			fmt.Println("level 1 crash before", op.String(), "recorded:", path[0].Op)
-			img = sh.takeImage(s, path[0].ImgSeed)
+			if path[0].ManifestCut > 0 {
+				mfd, _, _, _ := sh.currentManifest()
+				img = sh.takeImageCut(s, path[0].ImgSeed, mfd, path[0].ManifestCut)
+			} else {
+				img = sh.takeImage(s, path[0].ImgSeed)
+			}
 		}
 		sh.apply(op)
 	})
@@ -280,4 +286,20 @@ func init() {
 			fmt.Println("VIOLATION", v.Signature, "\n ", v.Message)
 		}
 	}
+}
+
+// crParseRanges reads what crIDRanges wrote ("[0-3 7 9-12]").
+func crParseRanges(t string) []int {
+	var out []int
+	for _, f := range strings.Fields(strings.Trim(t, "[]")) {
+		var a, b int
+		if n, _ := fmt.Sscanf(f, "%d-%d", &a, &b); n == 2 {
+			for i := a; i <= b; i++ {
+				out = append(out, i)
+			}
+		} else if n, _ := fmt.Sscanf(f, "%d", &a); n == 1 {
+			out = append(out, a)
+		}
+	}
+	return out
 }
